@@ -215,6 +215,7 @@ def ref_text(r):
     if st[0] == "f": s += "." + st[1]
     elif st[0] == "i": s += f"[{st[1]}]"
     elif st[0] == "sv": s += f"[{st[1]}*{st[2]}:{st[1]}*{st[2]}+{st[2]}]"        # loop-variable slice [i*w : i*w+w]
+    elif len(st) > 4: s += "[:%d]" % st[2] if st[4] == "lo" else "[%d:]" % st[1]            # st[4]: the bound that the text leaves out
     else: s += f"[{st[1]}:{st[2]}]" if len(st) < 4 else f"[{st[1]}:{st[2]}:{st[3]}]"       # st[3]: a slice step (only in defective designs)
   return s
 
@@ -1166,6 +1167,19 @@ class Gen:
           b = rng.randrange(B, W + 1)
           if (a, b) == (A, B) and rng.random() < 0.7: continue
           r["steps"] = r["steps"][:-1] + [["s", a, b], ["s", A - a, B - a]]
+    if k.get("p_omit_bounds"):
+      # s.x[0:8] -> s.x[:8],  s.x[8:W] -> s.x[8:]  in connect statements (same bits)
+      for con in cls["connects"]:
+        for r in con:
+          if "const" in r or not r.get("steps") or r["steps"][-1][0] != "s" or len(r["steps"][-1]) != 3 or r.get("sym") or rng.random() >= k["p_omit_bounds"]: continue
+          st = r["steps"][-1]
+          if len(r["steps"]) >= 2 and r["steps"][-2][0] == "s":
+            W = r["steps"][-2][2] - r["steps"][-2][1]
+          else:
+            W = ref_type(d, cls, r)
+          if not isinstance(W, int): continue
+          if st[1] == 0 and st[2] < W: r["steps"] = r["steps"][:-1] + [st + [None, "lo"]]
+          elif st[2] == W and st[1] > 0: r["steps"] = r["steps"][:-1] + [st + [None, "hi"]]
     if k.get("p_vfunc") and rng.random() < k["p_vfunc"]:
       self.add_vfuncs(cls)
     if k.get("p_func"):
